@@ -137,6 +137,9 @@ type aEnv struct {
 	mon      *aMonitor
 	sending  *aReq
 	shortIds map[[3]int]bool // engine P: LockIds whose hold ends before the restart instant
+	// freshCmds: every request gets a newly allocated command object instead of one from the connection's
+	// pool (engine B while the command use-after-free finding is listed: recycling is what makes it visible)
+	freshCmds bool
 }
 
 func aNewEnv(c *aCase) (*aEnv, error) {
@@ -286,7 +289,12 @@ func (e *aEnv) apply(op aOp) {
 
 func (e *aEnv) send(op aOp) {
 	p := e.clients[op.C%len(e.clients)]
-	cmd := p.GetLockCommand()
+	var cmd *protocol.LockCommand
+	if e.freshCmds {
+		cmd = &protocol.LockCommand{}
+	} else {
+		cmd = p.GetLockCommand()
+	}
 	r := &aReq{Idx: len(e.reqs), Op: op, Time: e.now, Terminal: -1, LockId: aLockId(op.Id), Key: aKey(op.Key)}
 	r.Op.C = op.C % len(e.clients)
 	cmd.Magic, cmd.Version = protocol.MAGIC, protocol.VERSION
